@@ -73,6 +73,7 @@ type WrCli struct {
 func init() {
 	Register(&Scenario{
 		Name:     "writers",
+		LazyToo:  true,
 		DescToo:  true,
 		Property: "C14",
 		Cfg:      vsched.Config{Horizon: 3500 * time.Millisecond},
